@@ -30,33 +30,17 @@ func init() {
 		"fmt.Sprint":   inSprintf,
 
 		"(*os.File).WriteString": func(ip *Interp, fn *ssa.Function, a []Value) Value {
-			if h, ok := a[0].(*HostObj); ok && h.Kind == "os.Stdout" {
-				ip.stdout = append(ip.stdout, ip.strBytes(a[1].(*StrV))...)
-			}
-			if h, ok := a[0].(*HostObj); ok && h.Kind == "file" {
-				for _, b := range ip.strBytes(a[1].(*StrV)) {
-					h.Data = append(h.Data, b)
-				}
-			}
-			if h, ok := a[0].(*HostObj); ok && h.Kind == "devfull" {
-				return TupleV{ip.p.T.Const(64, 0), ip.mkError("write /dev/full: no space left on device")}
-			}
-			return TupleV{ip.p.T.Const(64, uint64(a[1].(*StrV).Len())), IfaceV{}}
+			h, _ := a[0].(*HostObj)
+			return ip.fileWrite(h, ip.strBytes(a[1].(*StrV)))
 		},
 		"(*os.File).Write": func(ip *Interp, fn *ssa.Function, a []Value) Value {
-			if h, ok := a[0].(*HostObj); ok {
-				switch h.Kind {
-				case "os.Stdout":
-					for _, b := range a[1].(SliceV).Data {
-						ip.stdout = append(ip.stdout, b.(*Term))
-					}
-				case "file":
-					h.Data = append(h.Data, a[1].(SliceV).Data...)
-				case "devfull":
-					return TupleV{ip.p.T.Const(64, 0), ip.mkError("write /dev/full: no space left on device")}
-				}
+			h, _ := a[0].(*HostObj)
+			src := a[1].(SliceV).Data
+			bs := make([]*Term, len(src))
+			for i, b := range src {
+				bs[i] = b.(*Term)
 			}
-			return TupleV{ip.p.T.Const(64, uint64(len(a[1].(SliceV).Data))), IfaceV{}}
+			return ip.fileWrite(h, bs)
 		},
 		"(*os.File).Close": func(ip *Interp, fn *ssa.Function, a []Value) Value { return IfaceV{} },
 		"os.Open": func(ip *Interp, fn *ssa.Function, a []Value) Value {
@@ -420,7 +404,7 @@ func inSprintf(ip *Interp, fn *ssa.Function, a []Value) Value {
 func inFprint(ip *Interp, fn *ssa.Function, a []Value) Value {
 	T := ip.p.T
 	w, _ := a[0].(IfaceV)
-	if h, ok := w.V.(*HostObj); ok && h.Kind == "os.Stdout" {
+	if h, ok := w.V.(*HostObj); ok && (h.Kind == "os.Stdout" || h.Kind == "file" || h.Kind == "devfull") {
 		var s *StrV
 		switch fn.Name() {
 		case "Fprintf":
@@ -430,8 +414,7 @@ func inFprint(ip *Interp, fn *ssa.Function, a []Value) Value {
 		default:
 			s = ip.formatArgs("", a[1:])
 		}
-		ip.stdout = append(ip.stdout, ip.strBytes(s)...)
-		return TupleV{T.Const(64, uint64(s.Len())), IfaceV{}}
+		return ip.fileWrite(h, ip.strBytes(s))
 	}
 	if w.T == nil || strings.HasSuffix(w.T.String(), "os.File") {
 		return TupleV{T.Const(64, 0), IfaceV{}}
@@ -449,6 +432,46 @@ func inFprint(ip *Interp, fn *ssa.Function, a []Value) Value {
 		s = ip.formatArgs("", a[1:])
 	}
 	return ip.callWrite(w, s)
+}
+
+// fileWrite is (*os.File).Write on the engine's files: the in-memory files and the captured os.Stdout grow,
+// /dev/full refuses every byte, and under vFileSizeLimit a regular file (and os.Stdout when it stands for one)
+// stores what still fits and fails like write(2) under RLIMIT_FSIZE. Other handles (os.Stderr) swallow the bytes.
+func (ip *Interp) fileWrite(h *HostObj, bs []*Term) Value {
+	T := ip.p.T
+	if h == nil {
+		return TupleV{T.Const(64, uint64(len(bs))), IfaceV{}}
+	}
+	fit := len(bs)
+	limited := func(cur int) {
+		if ip.fsizeLimitOn && cur+len(bs) > ip.fsizeLimit {
+			fit = ip.fsizeLimit - cur
+			if fit < 0 {
+				fit = 0
+			}
+		}
+	}
+	switch h.Kind {
+	case "devfull":
+		if len(bs) == 0 {
+			return TupleV{T.Const(64, 0), IfaceV{}}
+		}
+		return TupleV{T.Const(64, 0), ip.mkError("write /dev/full: no space left on device")}
+	case "os.Stdout":
+		if ip.stdoutIsFile {
+			limited(len(ip.stdout))
+		}
+		ip.stdout = append(ip.stdout, bs[:fit]...)
+	case "file":
+		limited(len(h.Data))
+		for _, b := range bs[:fit] {
+			h.Data = append(h.Data, b)
+		}
+	}
+	if fit < len(bs) {
+		return TupleV{T.Const(64, uint64(fit)), ip.mkError("write: file too large")}
+	}
+	return TupleV{T.Const(64, uint64(len(bs))), IfaceV{}}
 }
 
 // callWrite invokes w.Write([]byte(s)).
